@@ -282,12 +282,14 @@ func orEmptyObj(s string) string {
 
 var siteRe = regexp.MustCompile(` @[^ ]+( \[|$)`)
 var atRe = regexp.MustCompile(` at [^ )]+`)
+var braceRe = regexp.MustCompile(` ?\{[^}]*\}`)
 
 // stripSite removes file:line positions from a message (they move under unrelated edits).
 func stripSite(s string) string {
 	s = siteRe.ReplaceAllString(s, "$1")
 	s = strings.TrimSuffix(s, " [")
-	return atRe.ReplaceAllString(s, "")
+	s = braceRe.ReplaceAllString(s, "")
+	return strings.TrimSpace(atRe.ReplaceAllString(s, ""))
 }
 
 // ---------------------------------------------------------------------------------------
